@@ -701,12 +701,13 @@ structure Part where
   tok : Tok
 deriving DecidableEq, Repr, Inhabited
 
+/-- exponent as `repr` writes it: `e+22`, `e-07` -/
+def expText : Option (Bool × List Char) → List Char
+  | none => []
+  | some (n, ds) => 'e' :: (if n then '-' else '+') :: ds
+
 def Tok.text : Tok → List Char
-  | .dec ip fp ex =>
-    ip ++ (if fp = [] then [] else '.' :: fp) ++
-      (match ex with
-        | none => []
-        | some (n, ds) => 'e' :: (if n then '-' else '+') :: ds)
+  | .dec ip fp ex => ip ++ (if fp = [] then [] else '.' :: fp) ++ expText ex
   | .inf => "inf".toList
   | .nan => "nan".toList
 
@@ -729,6 +730,11 @@ def scanExp (l : List Char) : Option (Bool × List Char) × List Char :=
     else (none, l)
   | [] => (none, l)
 
+/-- optional fraction `.D*`: (fraction digits, rest) -/
+def scanFrac : List Char → List Char × List Char
+  | '.' :: r => (r.takeWhile Char.isDigit, r.dropWhile Char.isDigit)
+  | l => ([], l)
+
 /-- the magnitude part of `strtod` / `_Py_parse_inf_or_nan`: longest prefix that is a number -/
 def scanMag (l : List Char) : Option (Tok × List Char) :=
   match l with
@@ -737,9 +743,7 @@ def scanMag (l : List Char) : Option (Tok × List Char) :=
     if c.isDigit ∨ c = '.' then
       let ip := l.takeWhile Char.isDigit
       let r1 := l.dropWhile Char.isDigit
-      let fr : List Char × List Char := match r1 with
-        | '.' :: r => (r.takeWhile Char.isDigit, r.dropWhile Char.isDigit)
-        | _ => ([], r1)
+      let fr := scanFrac r1
       if ip = [] ∧ fr.1 = [] then none
       else
         let ex := scanExp fr.2
@@ -767,12 +771,14 @@ def complexTail (bracket : Bool) (l : List Char) : Bool :=
     | _ => false
   else l1.isEmpty
 
+/-- optional opening bracket (blanks may follow it) -/
+def openBracket : List Char → Bool × List Char
+  | '(' :: r => (true, r.dropWhile isNumSpace)
+  | l => (false, l)
+
 /-- `complex(text)`: (real part, imaginary part) as signed tokens -/
 def complexParse (text : List Char) : Option (Part × Part) :=
-  let s0 := text.dropWhile isNumSpace
-  let br : Bool × List Char := match s0 with
-    | '(' :: r => (true, r.dropWhile isNumSpace)
-    | _ => (false, s0)
+  let br := openBracket (text.dropWhile isNumSpace)
   let fin (x y : Part) (rest : List Char) : Option (Part × Part) :=
     if complexTail br.1 rest then some (x, y) else none
   match scanFloat br.2 with
